@@ -338,6 +338,23 @@ def cmp(opn, w, a, b):
         return cmp("eq", w, a, K(w, 0))
     if opn == "ule" and is_k(b) and b[2] == 0:
         return cmp("eq", w, a, K(w, 0))
+    # an arithmetic right shift by a constant c has the signed range [-2^(w-1-c), 2^(w-1-c) - 1]
+    if opn in ("slt", "sle"):
+        for sh_side, k_side, sh_left in ((a, b, True), (b, a, False)):
+            if is_k(k_side) and isinstance(sh_side, tuple) and sh_side[0] == "sh" and sh_side[1] == "ashr" and is_k(sh_side[4][2]):
+                c = sh_side[4][2][2]
+                lo, hi = -(1 << (w - 1 - c)), (1 << (w - 1 - c)) - 1
+                kv = sval(k_side)
+                if sh_left:      # sh < / <= K
+                    if (opn == "slt" and kv > hi) or (opn == "sle" and kv >= hi):
+                        return TRUE
+                    if (opn == "slt" and kv <= lo) or (opn == "sle" and kv < lo):
+                        return FALSE
+                else:            # K < / <= sh
+                    if (opn == "slt" and kv < lo) or (opn == "sle" and kv <= lo):
+                        return TRUE
+                    if (opn == "slt" and kv >= hi) or (opn == "sle" and kv > hi):
+                        return FALSE
     # comparisons of two zero-extensions of same-width values compare the narrow values
     if a[0] == "zext" and b[0] == "zext" and width(a[2]) == width(b[2]) and opn in ("eq", "ne", "ult", "ule"):
         return cmp(opn, width(a[2]), a[2], b[2])
